@@ -20,6 +20,7 @@ type c16recipe struct {
 	untouched   []string // golden entries that must keep their bytes
 	otherFail   bool     // some executed line fails for another reason
 	unquotable  bool     // some update content needs quoting and cannot be quoted
+	conflict    bool     // outputs are not a function of the script alone (a golden compared against two different outputs, or an updated entry used as an output)
 	totalLines  int
 	lastLineRun int
 }
@@ -260,6 +261,7 @@ func genC16(rng *rand.Rand) *tcase {
 							rec.updates[gname] = act
 							recipe = append(recipe, fmt.Sprintf("line %d: second cmp mismatch on %s -> last wins", ln, gname))
 							tags = append(tags, "update-twice")
+							rec.conflict = true
 						}
 					}
 				}
@@ -338,6 +340,7 @@ func genC16(rng *rand.Rand) *tcase {
 				rec.updates[in] = s.files[gname]
 				recipe = append(recipe, fmt.Sprintf("line %d: cmp golden against entry %s -> that entry is updated", ln, in))
 				tags = append(tags, "update-input-entry")
+				rec.conflict = true
 			}
 		case 9: // an unrelated failure in between
 			ln := emit(g.pick([]string{"exists nothing-here", "frobnicate", "! exists " + g.rel(gname), "cmp " + g.rel(gname)}))
@@ -477,7 +480,7 @@ func c16Oracle(res *corr.Result, c *tcase, in string, got obs, rerun *obs) {
 		res.Violate("C16", in, "run fails although the only mismatches were in-archive cmps", "update-does-not-pass")
 	}
 	// fix-point: re-run without UpdateScripts
-	if rerun != nil && !rec.otherFail {
+	if rerun != nil && !rec.otherFail && !rec.conflict {
 		all := true
 		for _, act := range rec.updates {
 			if !representable(act) {
